@@ -142,6 +142,13 @@ var builders = map[string]builder{
 		f := func() int { return p.future()() }
 		return &subject{tVal, obsF(func() int { o.Do(f); return o.Resolve() })}
 	},
+	// Do on its own: a caller of Do is a caller of the once-wrapped function too (no Resolve that would
+	// hide an early return of Do behind its own wait)
+	"adt.Once.DoOnly": func(sc scenario, p *probe, _ context.Context) *subject {
+		o := &adt.Once[int]{}
+		f := func() int { return p.future()() }
+		return &subject{tNone, func(int, context.Context) any { o.Do(f); return "-" }}
+	},
 	"adt.Mnemonize": func(sc scenario, p *probe, _ context.Context) *subject {
 		return &subject{tVal, obsF(adt.Mnemonize(func() int { return p.future()() }))}
 	},
